@@ -130,6 +130,11 @@ def gen_hd_calls(rng):
     calls = []
     nobj = 1
     threads = [0] * 6 + [1, 1, 2]
+    if rng.random() < .15:       # a list-valued header, a copy, then both sides mutated
+        k = rng.choice(KEYS)
+        calls = [[0, 0, ['app', k, ['s', 'one']]], [0, 0, ['app', k, ['s', 'two']]], [0, 0, ['copy']],
+                 [rng.choice([0, 1]), 0, ['app', k, ['s', 'three']]]]
+        nobj = 2
     for _ in range(rng.randint(1, 9)):
         i = rng.randrange(nobj)
         t = rng.choice(threads)
@@ -984,6 +989,36 @@ def oracle_resp_copy(status, hdrs, cookies, cls):
     return bad
 
 
+def oracle_status(a):
+    """the status setter: an int 100..999 or '<code> <reason>' sets code and line (the text, stripped); anything else raises"""
+    _, resp, _ = mods()
+    r = resp.HTTPResponse()
+    bad = []
+    if isinstance(a, int):
+        want = (a, None) if 100 <= a <= 999 else None
+    else:
+        toks = a.split()
+        ok = ' ' in a and toks and toks[0].isascii() and toks[0].isdigit() and 100 <= int(toks[0]) <= 999
+        want = (int(toks[0]), a.strip()) if ok else None
+        if not ok and ' ' in a and toks and not toks[0].isdigit():
+            return []        # signs, underscores, exotic numerals: int() decides, not the oracle
+    try:
+        r.status = a
+        got = (r.status_code, r.status_line)
+    except (ValueError, IndexError):
+        got = None
+    if want is None:
+        if got is not None and got != (200, '200 OK'):
+            bad.append(('status-accepted', f'status = {a!r} was accepted as {got!r}'))
+        if (r.status_code, r.status_line) != (200, '200 OK'):
+            bad.append(('status-rejected-changed', f'status = {a!r} raised but left {(r.status_code, r.status_line)!r}'))
+    elif got is None:
+        bad.append(('status-refused', f'status = {a!r} was refused'))
+    elif got[0] != want[0] or (want[1] is not None and got[1] != want[1]) or (isinstance(a, int) and not got[1].startswith(str(want[0]) + ' ')) or r.status != got[1]:
+        bad.append(('status-line', f'status = {a!r} gives code {got[0]!r} line {got[1]!r}'))
+    return bad
+
+
 def oracle_fw(data, sched, buff):
     ch, _, _ = mods()
     w = ch.WSGIFileWrapper(make_fp(['read'], data, sched), buff)
@@ -1041,6 +1076,8 @@ def search_stream(rng, n, pid, stats, seeds=()):
     for st in (200, 404, '200 OK', '299 Custom', 204, 304, '500 Oops here'):
         for cls in ('HTTPResponse', 'HTTPError'):
             cases.append(('rcopy', [st, [['X-A', 'v'], ['Content-Type', 'text/plain']], [['a', 'v', {}], ['b', 'x y', {'path': '/'}]], cls]))
+    for a in ST_INTS + ST_STRS:
+        cases.append(('status', a))
     for nn in range(5):
         for tup in (False, True):
             cases.append(('ci', [nn, tup]))
@@ -1077,7 +1114,8 @@ def search_stream(rng, n, pid, stats, seeds=()):
         bump(stats, 'resphelp:update-witness-stale')
     findings, evals = [], 0
     fns = dict(hd=lambda x: oracle_hd(x), threads=lambda x: oracle_threads(*x), props=lambda x: oracle_props(x), copy=lambda x: oracle_copy(x),
-               dck=lambda x: oracle_delete_cookie(*x), rcopy=lambda x: oracle_resp_copy(*x), fw=lambda x: oracle_fw(*x), ci=lambda x: oracle_ci(*x))
+               dck=lambda x: oracle_delete_cookie(*x), rcopy=lambda x: oracle_resp_copy(*x), fw=lambda x: oracle_fw(*x), ci=lambda x: oracle_ci(*x),
+               status=lambda x: oracle_status(x))
     for kind, x in cases:
         evals += 1
         try:
@@ -1118,7 +1156,7 @@ def replay_case(i, pid):
         kind, x = i['kind'], _unjson(i['value'])
         fn = dict(hd=lambda: oracle_hd(x), threads=lambda: oracle_threads(*x), props=lambda: oracle_props(x), copy=lambda: oracle_copy(x),
                   dck=lambda: oracle_delete_cookie(*x), rcopy=lambda: oracle_resp_copy(*x), fw=lambda: oracle_fw(*x),
-                  ci=lambda: oracle_ci(*x))[kind]
+                  ci=lambda: oracle_ci(*x), status=lambda: oracle_status(x))[kind]
         return dict(input=i, oracle=[list(b) for b in fn()])
     out = dict(input=i)
     sub = i.get('sub')
@@ -1163,7 +1201,7 @@ RH_NOTE = ('response helpers (HeaderDict full API, HeaderProperty, copy, delete_
            'after delete_cookie keeps Max-Age=-1 and the epoch expires (SimpleCookie keeps the morsel)')
 
 
-def install(cls, quick=(1200, 400), thorough=(30000, 8000)):
+def install(cls, quick=(1000, 350), thorough=(30000, 8000)):
     """adds the stream to check class `cls`: table, anchors, correspondence, oracle, replay"""
     pid = cls.pid
     cls.tables = list(cls.tables) + ['resphelp']
